@@ -414,7 +414,7 @@ NSHARD = 16
 
 
 def plan(tier):
-    n = 700 if tier == 'quick' else 4000
+    n = 700 if tier == 'quick' else 8000
     return [{'kind': 'hyp', 'shard': i, 'examples': n} for i in range(NSHARD)]
 
 
